@@ -1,0 +1,16 @@
+//go:build verif
+
+// Contracts for the deductive checks in /verif (comment-only; not part of normal builds).
+// Contracts on interface methods are verified on every implementer in the repository.
+
+package iface
+
+//@ func Datatype.ResetSnapshot
+//@   mode math
+//@   props C13
+//@   modifies datatypes.SnapshotDatatype.Snapshot
+
+//@ func Datatype.GetSnapshot
+//@   mode math
+//@   props C13
+//@   modifies nothing
